@@ -127,6 +127,9 @@ func features(schema any) map[string]bool {
 						if !isRef && !(len(bt) == 1 && bt[0] == "object") {
 							f[strings.ToLower(ck)+"-non-object-branch"] = true
 						}
+						if isRef && ck == "anyOf" {
+							f["anyof-ref-branch"] = true
+						}
 						if ap, ok := bm["additionalProperties"]; ok && ap != false {
 							f[strings.ToLower(ck)+"-branch-typed-addl"] = true
 						}
@@ -256,6 +259,7 @@ var c01Rules = []genRule{
 	{"ENUM_CONST_COLLISION", regexp.MustCompile(`(\w+ redeclared in this block|other declaration of \w+)`), "enum-const-collision"},
 	{"ANYOF_BRANCH_TYPED_ADDL_MISSING_IMPORTS", regexp.MustCompile(`undefined: (reflect|strings|mapstructure)`), "anyof-branch-typed-addl"},
 	{"ANYOF_NON_OBJECT_BRANCH_UNDEFINED", regexp.MustCompile(`undefined: \w+_\d+`), "anyof-non-object-branch"},
+	{"ANYOF_REF_TO_METHODLESS_DEFINITION", regexp.MustCompile(`\w+\.Unmarshal(JSON|YAML) undefined \(type \w+ has no field or method Unmarshal(JSON|YAML)\)`), "anyof-ref-branch"},
 	{"DESCRIPTION_BUILD_CONSTRAINT", regexp.MustCompile(`^not gofmt-stable$`), "description-build-line"},
 	{"PATTERN_BACKTICK", regexp.MustCompile(`^(parse: |format warning: )`), "pattern-backtick"},
 	{"NUL_IN_TEXT", regexp.MustCompile(`illegal character NUL`), "nul-in-text"},
